@@ -105,6 +105,11 @@ class HarnessError(Exception):
     pass
 
 
+class StopShrinking(BaseException):
+    """aborts Hypothesis's shrink phase once the call budget is used up (the smallest failing case seen so far
+    is already recorded); a BaseException so that Hypothesis does not treat it as a test failure"""
+
+
 # ----------------------------------------------------------------------------------------------
 # known findings
 
@@ -224,8 +229,8 @@ def _make_body(ctx, check, shrink_budget):
     def body(case):
         if state["first"] is not None:
             state["calls_after"] += 1
-            if state["calls_after"] > shrink_budget and canon(case) != state["last_json"]:
-                return  # budget exhausted: let the shrinker starve
+            if state["calls_after"] > shrink_budget:
+                raise StopShrinking()  # budget (a count of calls, never time) exhausted: keep the best case so far
         ctx.raise_on_fail = True
         try:
             check(ctx, case)
@@ -272,7 +277,7 @@ def hyp_run(ctx: Ctx, strategy, check, max_examples, *, shrink_budget=None, roun
         test = hypothesis.seed(base_seed + rnd)(test)
         try:
             test()
-        except Fail:
+        except (Fail, StopShrinking):
             pass
         except hypothesis.errors.Flaky as e:  # pragma: no cover - reported as harness problem
             if state["last"] is None:
